@@ -1106,8 +1106,18 @@ static void gen_expr(Node *node) {
     error_tok(node->tok, "invalid expression");
   }
   case TY_LDOUBLE: {
-    gen_expr(node->lhs);
+    // Keep the right operand in memory while the left one is evaluated,
+    // like pushf/popf above. Holding it on the x87 register stack would
+    // overflow the eight registers in a deeply nested expression, and
+    // the psABI wants that stack empty at every call.
     gen_expr(node->rhs);
+    println("  sub $16, %%rsp");
+    println("  fstpt (%%rsp)");
+    depth += 2;
+    gen_expr(node->lhs);
+    println("  fldt (%%rsp)");
+    println("  add $16, %%rsp");
+    depth -= 2;
 
     switch (node->kind) {
     case ND_ADD:
